@@ -160,3 +160,25 @@ package state
 //@   modifies nothing
 //@   havoc F|state.Session, F|state.State, MP|map[net/netip.Addr]*state.Session
 //@   ensures session: true
+
+// Environment of the handshake: storage and key-exchange internals (ECDH, BLAKE3) are not modelled; these calls are
+// assumed not to touch frames, links or the configuration.
+//@ func State.AddRouter
+//@   modifies nothing
+//@   havoc F|storage., MP|
+//@ func EncryptionSession.InitKeyClientStart
+//@   option trusted
+//@   modifies nothing
+//@   havoc F|state.EncryptionSession, F|state.SequenceHandler
+//@ func EncryptionSession.InitKeyServer
+//@   option trusted
+//@   modifies nothing
+//@   havoc F|state.EncryptionSession, F|state.SequenceHandler
+//@ func EncryptionSession.InitKeyClientComplete
+//@   option trusted
+//@   modifies nothing
+//@   havoc F|state.EncryptionSession, F|state.SequenceHandler
+//@ func EncryptionSession.DeriveSessionFromKX
+//@   option trusted
+//@   modifies nothing
+//@   ensures derived: result1 == nil ==> result0 != nil
